@@ -6,6 +6,7 @@
 package main
 
 import (
+	"bytes"
 	"fmt"
 	"math/rand"
 	"os"
@@ -31,6 +32,7 @@ type Op struct {
 type Input struct {
 	Stream string `json:"stream"` // sync | hold | writeback
 	Keys   int    `json:"keys"`
+	Long   bool   `json:"long_keys,omitempty"` // keys of 130+ bytes
 	Ops    []Op   `json:"ops"`
 }
 
@@ -85,9 +87,20 @@ type rig struct {
 
 // the codec: decimal digits, except that the value 0 — a legal object, different from the default New(k) = 1000+k —
 // serializes to ZERO bytes (an empty byte slice stored in Badger is still a stored value)
+// Values from bigBase up are BIG objects: their serialized form is the decimal followed by ':' and (v % bigMod) filler
+// bytes, i.e. 1-32 KiB.  Decoding checks the filler byte for byte; anything else decodes to the marker `garbled`.
+const (
+	bigBase = 1000000
+	bigMod  = 32768
+	garbled = 777777777
+)
+
 func encodeVal(v int) []byte {
 	if v == 0 {
 		return []byte{}
+	}
+	if v >= bigBase {
+		return append([]byte(strconv.Itoa(v)+":"), bytes.Repeat([]byte{'x'}, v%bigMod)...)
 	}
 	return []byte(strconv.Itoa(v))
 }
@@ -96,12 +109,26 @@ func decodeVal(b []byte) (int, error) {
 	if len(b) == 0 {
 		return 0, nil
 	}
+	if i := bytes.IndexByte(b, ':'); i >= 0 {
+		v, err := strconv.Atoi(string(b[:i]))
+		if err != nil || v < bigBase || !bytes.Equal(b[i+1:], bytes.Repeat([]byte{'x'}, v%bigMod)) {
+			return garbled, nil
+		}
+		return v, nil
+	}
 	return strconv.Atoi(string(b))
 }
 
-func keyName(i int) string { return "k" + strconv.Itoa(i) }
+var longKeys bool // set per case
+
+func keyName(i int) string {
+	if longKeys {
+		return "k" + strconv.Itoa(i) + strings.Repeat("_", 130)
+	}
+	return "k" + strconv.Itoa(i)
+}
 func keyIdx(k string) int {
-	i, _ := strconv.Atoi(strings.TrimPrefix(k, "k"))
+	i, _ := strconv.Atoi(strings.TrimRight(strings.TrimPrefix(k, "k"), "_"))
 	return i
 }
 
@@ -201,6 +228,7 @@ func run(in Input) (res lib.Result) {
 		openDB()
 	}
 	caseSeq++
+	longKeys = in.Long
 	r := &rig{prefix: fmt.Sprintf("c%d:", caseSeq), entered: make(chan int, 1)}
 	r.newCache()
 	nkeys := in.Keys
@@ -216,18 +244,23 @@ func run(in Input) (res lib.Result) {
 	flushed := false
 	hung := ""
 
-	observe := func() string {
-		items := make([]string, nkeys)
+	curKey := 0
+	// Badger content: for every key of the universe; with many keys only after a flush (else the key just used and a few more)
+	observe := func(full bool) string {
+		var items []string
 		for i := 0; i < nkeys; i++ {
+			if !full && nkeys > 8 && i != curKey && i%37 != 0 {
+				continue
+			}
 			if v, ok := r.diskOf(i); ok {
-				items[i] = lib.Pair(lib.N(uint64(i)), lib.Some(lib.N(uint64(v))))
+				items = append(items, lib.Pair(lib.N(uint64(i)), lib.Some(lib.N(uint64(v)))))
 			} else {
-				items[i] = lib.Pair(lib.N(uint64(i)), "None")
+				items = append(items, lib.Pair(lib.N(uint64(i)), "None"))
 			}
 		}
 		return "{| o_len := " + lib.Nat(r.c.Len()) + "; o_disk := " + lib.List(items) + " |}"
 	}
-	emit := func(h string) { hist = append(hist, lib.Pair(h, observe())) }
+	emit := func(h string) { hist = append(hist, lib.Pair(h, observe(strings.HasPrefix(h, "HFlushReopen")))) }
 
 	releaseHeld := func() {
 		if held < 0 {
@@ -271,6 +304,7 @@ func run(in Input) (res lib.Result) {
 			k = 0
 		}
 		counts[o.Op]++
+		curKey = k
 		switch o.Op {
 		case "put":
 			p := &obj{Val: o.Val}
@@ -448,7 +482,66 @@ func nontrivial(in Input) bool {
 
 var fracs = [][2]int{{1, 4}, {1, 2}, {3, 4}, {1, 1}, {1, 1}, {1, 2}}
 
+// ---- stream "big": objects whose serialized form has 1-20 KiB (sometimes under keys of 130+ bytes), evicted or
+// flushed, then read back ----
+func genBig(r *rand.Rand) Input {
+	in := Input{Stream: "big", Keys: lib.Range(r, 2, 3), Long: lib.Chance(r, 0.5)}
+	big := func() int {
+		size := lib.Pick(r, []int{1000, 1023, 1024, 1025, 1500, 4096, 10000, 16383, 16384, 16385, 20000})
+		return bigBase*lib.Range(r, 1, 30)/bigMod*bigMod + bigMod*31 + size // = size modulo bigMod, above bigBase
+	}
+	n := lib.Range(r, 4, 14)
+	for i := 0; i < n; i++ {
+		k := r.Intn(in.Keys)
+		switch x := r.Intn(100); {
+		case x < 35:
+			in.Ops = append(in.Ops, Op{Op: "put", Key: k, Val: big()})
+		case x < 45:
+			in.Ops = append(in.Ops, Op{Op: "mutate", Key: k, Val: big()})
+		case x < 65:
+			in.Ops = append(in.Ops, Op{Op: "read", Key: k})
+		case x < 88:
+			f := lib.Pick(r, fracs)
+			in.Ops = append(in.Ops, Op{Op: "evict", Num: f[0], Den: f[1]})
+		default:
+			in.Ops = append(in.Ops, Op{Op: "flush"})
+		}
+	}
+	in.Ops = append(in.Ops, Op{Op: "evict", Num: 1, Den: 1})
+	for k := 0; k < in.Keys; k++ {
+		in.Ops = append(in.Ops, Op{Op: "read", Key: k})
+	}
+	return in
+}
+
+// ---- stream "many": 63 / 64 / 65 / 128 / 192 live dirty entries at Flush (some hotter than others), reopen, reads ----
+func genMany(r *rand.Rand) Input {
+	n := lib.Pick(r, []int{64, 128, 192, 63, 65, 64, 128})
+	in := Input{Stream: "many", Keys: n}
+	for k := 0; k < n; k++ {
+		in.Ops = append(in.Ops, Op{Op: "put", Key: k, Val: 10 + k})
+	}
+	hot := lib.Range(r, 0, 70)
+	for i := 0; i < hot; i++ { // heat some entries: they are evicted last
+		in.Ops = append(in.Ops, Op{Op: "read", Key: r.Intn(n)})
+	}
+	if lib.Chance(r, 0.3) {
+		in.Ops = append(in.Ops, Op{Op: "delete", Key: r.Intn(n)})
+	}
+	in.Ops = append(in.Ops, Op{Op: "flush"})
+	for i := 0; i < 8; i++ {
+		in.Ops = append(in.Ops, Op{Op: "read", Key: r.Intn(n)})
+	}
+	return in
+}
+
 func gen(r *rand.Rand, idx int, tier string) Input {
+	switch {
+	case idx%20 == 7 || idx%20 == 17:
+		return genBig(r)
+	case idx%50 == 9:
+		return genMany(r)
+	}
 	in := Input{Keys: lib.Range(r, 2, 3)}
 	switch {
 	case idx%5 == 3:
